@@ -14,7 +14,7 @@ RULE = ("worlds with max_recompute in {None,1,2,3,7}, idle stretches, sessions f
         "calls the party scribbles over every object it was handed; non-trivial = >=1 timer-only invocation and >=1 "
         "mutation fault; distinct = per-period history signature")
 PROBES = ["timer_only_call", "mutation", "session_finished_early_hidden", "third_period_pilots", "resumed", "paired_run",
-          "arrival_this_period_seen", "departure_this_period_hidden", "infra_seen_after_reconfig", "custom_event_with_builtin", "mutate_then_crash"]
+          "arrival_this_period_seen", "departure_this_period_hidden", "infra_seen_after_reconfig", "custom_event_with_builtin", "mutate_then_crash", "scheduler_swapped_in_before_run"]
 FAULT_DIMENSION = ("party mutates handed SessionInfo / InfrastructureInfo / Constraint objects; scheduler crash + rerun; "
                    "operator changes a constraint limit between two periods (the scheduler must see the new, true limits)")
 ASSUMPTIONS = ["'handed' = argument of schedule(), results of active_sessions(), infrastructure_info(), get_constraints()",
@@ -32,6 +32,8 @@ def gen(rs, tier):
         # real algorithms with a slower timer (their own default is 1)
         sc["party"]["max_recompute"] = [2, 3, None][rs % 3]
     sc["faults"] = world.gen_faults(rs, sc, PROFILE)
+    if rs % 4 == 1:
+        sc["sim"]["built_with_max_recompute"] = [None, 1, 2, 5][(rs // 4) % 4]
     return sc
 
 
@@ -61,6 +63,8 @@ def check(sc):
     timer_only = [t for t in exp_calls if t not in ev and not (t == 0 and mr is not None)]
     out.probe("timer_only_call", len([t for t in exp_calls if t not in ev]))
     out.probe("mutation", tr.fault_counts.get("mutate", 0))
+    if "built_with_max_recompute" in sc["sim"]:
+        out.probe("scheduler_swapped_in_before_run")
     out.probe("custom_event_with_builtin", sum(1 for e in sc["extra_events"] if e.get("type") == "Event"))
     out.probe("resumed", len(tr.resumes))
     out.nontrivial = any(t not in ev for t in exp_calls) and tr.fault_counts.get("mutate", 0) > 0
